@@ -670,3 +670,27 @@ Definition pol_endpoint_b (t : table) (o : op) (t' : table) : bool :=
         if (nip (nd e) =? nip (nd e')) && (nport (nd e) =? nport (nd e')) then true
         else negb (live e') && rl_is e' Fast
     end) (all_ents t).
+
+(* ---- the findnode failure counter as a function of the operation history alone.
+   fails_step is what handleTrackRequest does to the counters (no other operation touches them); hist_fails
+   replays it over a history; consec is the specification: the number of consecutive failed track requests for
+   (id, ip) since the last successful one.  Proofs/Table.v shows they agree with the model state; the driver
+   evaluates the leave-cause predicate with hist_fails of the executed operations, not with the
+   implementation's own counter. *)
+Definition fails_step (f : list ((N * N) * N)) (o : op) : list ((N * N) * N) :=
+  match o with
+  | Track n s _ _ => fails_set f (nid n) (nip n) (if s then 0 else fails_read f (nid n) (nip n) + 1)
+  | _ => f
+  end.
+Definition hist_fails (os : list op) : list ((N * N) * N) := fold_left fails_step os [].
+Fixpoint consec (os : list op) (id ip acc : N) : N :=
+  match os with
+  | [] => acc
+  | o :: r =>
+      consec r id ip
+        (match o with
+         | Track n s _ _ => if (nid n =? id) && (nip n =? ip) then (if s then 0 else acc + 1) else acc
+         | _ => acc
+         end)
+  end.
+Definition with_fails (t : table) (f : list ((N * N) * N)) : table := mkTable (self t) (bks t) (gl t) f (initd t).
